@@ -17,7 +17,9 @@ RULE = ("exhaustive: every score sequence of length<=L over {-3..3} x (minScore,
         "{1,2,3,4}x{0,1,2,3,5}; random: sequences up to 200 positions with pair scores sp-dp*d and penalties su, "
         "thresholds over the CLI ranges.  non-trivial = the reference scan performs >=1 break AND some prefix "
         "hits a threshold equality (ext==0, ext==max-b or runmax==minScore); distinct = distinct (scores,m,b)")
-ASSUMPTIONS = ["scores are integers or multiples of 0.5 so that float sums are exact",
+ASSUMPTIONS = ["exhaustive / small-random / realistic-random: scores are integers or multiples of 0.5 so that float sums are exact and the "
+               "reference scan is authoritative; float-scores: inexact scores, only rounding-independent clauses (contiguity, separation, "
+               "first/last member a positively scored pair, score = sum, score >= minScore)",
                "positive scores belong to pairs (unpaired positions score unmatchedPenalty<=0)",
                "minScore>0 (factory rejects others), breakSegmentThreshold>=0"]
 
@@ -142,6 +144,56 @@ def check(case):
                         "break" if breaks else "nobreak", "eq" if eq else "noeq"]}
 
 
+def check_float(case):
+    """inexact float scores (-dp 0.35, one-decimal coordinates, -su 0): only the clauses that do not depend on how a
+    threshold equality is rounded are asserted"""
+    from src.alignment.alignment_position import AlignedPair
+    from src.alignment.segments_factory import AlignmentSegmentsFactory
+    from src.correlation.peak import Peak
+    scores, m, b = case["scores"], case["m"], case["b"]
+    positions = _objects(scores, case["kinds"])
+    segs = sut(AlignmentSegmentsFactory(m, b).getSegments, positions, Peak(1234, 50.0))
+    ident = {id(p): i for i, p in enumerate(positions)}
+    prev_end = None
+    n = 0
+    for s in segs:
+        if not s.positions:
+            continue
+        n += 1
+        idx = [ident.get(id(p)) for p in s.positions]
+        req(None not in idx and idx == list(range(idx[0], idx[0] + len(idx))), "not-contiguous", f"segment is not a contiguous run of the input: {idx}")
+        a, z = idx[0], idx[-1] + 1
+        if prev_end is not None:
+            req(a >= prev_end + 1, "not-separated", f"segments not separated: prev end {prev_end}, start {a}")
+        prev_end = z
+        req(isinstance(s.positions[0], AlignedPair) and scores[a] > 0, "start-not-positive-pair", f"segment {a}:{z} starts on score {scores[a]}")
+        req(isinstance(s.positions[-1], AlignedPair) and scores[z - 1] > 0, "end-not-positive-pair",
+            f"segment {a}:{z} ends on score {scores[z - 1]} ({type(s.positions[-1]).__name__}); scores {scores[max(a, z - 4):z]}")
+        tot = sum(scores[a:z])
+        req(abs(s.segmentScore - tot) <= 1e-6 * max(1.0, abs(tot)), "score-not-sum", f"segmentScore {s.segmentScore} vs sum {tot}")
+        req(tot >= m - 1e-6 * max(1.0, abs(m)), "below-minscore", f"segment score {tot} < minScore {m}")
+    zero_tail = any(scores[i] == 0 for i in range(len(scores)))
+    return {"nontrivial": n >= 1 and zero_tail, "classes": [f"segments={min(n, 3)}", "has-zero-score" if zero_tail else "no-zero-score"]}
+
+
+@st.composite
+def float_case(draw):
+    sp = draw(st.sampled_from([1000, 2000, 500]))
+    dp = draw(st.sampled_from([0.35, 0.35, 0.7, 1.0, 0.1]))
+    su = draw(st.sampled_from([0, 0, 0, -250, -100]))
+    n = draw(st.integers(1, 60))
+    scores, kinds = [], []
+    for _ in range(n):
+        if draw(st.integers(0, 9)) < 3:
+            scores.append(su)
+            kinds.append(draw(st.integers(1, 2)))
+        else:
+            d = draw(st.integers(0, 15000)) / 10      # one-decimal offsets, as CMAP coordinates give
+            scores.append(sp - dp * d)
+            kinds.append(0)
+    return {"scores": scores, "kinds": kinds, "m": draw(st.sampled_from([1000, 1, 500, 3000])), "b": draw(st.sampled_from([1200, 0, 600, 2500]))}
+
+
 ALPHA = (-3, -2, -1, 0, 1, 2, 3)
 GRID = [(m, b) for m in (1, 2, 3, 4) for b in (0, 1, 2, 3, 5)]
 
@@ -201,4 +253,6 @@ def subchecks(tier):
             describe="length<=14 over {-4..4}, all kinds of positions", shrink_budget=2000),
         Sub("realistic-random", "hyp", check, strategy=random_case, examples=8000 if q else 200000,
             describe="length<=200, scores sp-dp*d / su, CLI-range thresholds", shrink_budget=2000),
+        Sub("float-scores", "hyp", check_float, strategy=float_case, examples=20000 if q else 400000, shrink_budget=1500,
+            describe="inexact float scores with zero penalties: rounding-independent clauses only", required_classes=("has-zero-score",)),
     ]
